@@ -7,6 +7,7 @@ import (
 	"encoding/json"
 	"fmt"
 	"math/big"
+	"strings"
 	"testing"
 
 	"github.com/bilibili/smgo/sm2"
@@ -46,7 +47,7 @@ func c02solve(kinds []string, keyClass, eClass string) (c c02case, ok bool) {
 			ks[i] = new(big.Int).Add(bigN, bigOne)
 		case "Kmax":
 			ks[i] = new(big.Int).Sub(new(big.Int).Lsh(bigOne, 256), bigOne)
-		default:
+		default: // OK, OKZ
 			ks[i] = modN(new(big.Int).Add(okVals[(i+len(kinds))%len(okVals)], big.NewInt(int64(7*i))))
 			if ks[i].Sign() == 0 {
 				ks[i].SetInt64(5)
@@ -84,9 +85,40 @@ func c02solve(kinds []string, keyClass, eClass string) (c c02case, ok bool) {
 			}
 		}
 	}
+	// OKZ: the accepted candidate's r gets a leading zero byte. Without an e-solved rejection in the stream the digest
+	// is solved for it; otherwise (e is taken) the candidate k itself is searched.
+	last := len(kinds) - 1
+	if kinds[last] == "OKZ" {
+		eTaken := false
+		for _, kd := range kinds {
+			eTaken = eTaken || kd == "R0" || kd == "RK"
+		}
+		if !eTaken {
+			target := bi(append([]byte{0, 0x80}, vx.Fill("c02zr", 30)...))
+			e = modN(new(big.Int).Sub(target, sm2ref.BaseMul(ks[last]).X))
+		} else {
+			lim := new(big.Int).Lsh(bigOne, 248)
+			found := false
+			for t := int64(3); t < 6000; t++ {
+				k := big.NewInt(t)
+				r := modN(new(big.Int).Add(e, sm2ref.BaseMul(k).X))
+				if r.Sign() != 0 && r.Cmp(lim) < 0 && new(big.Int).Add(r, k).Cmp(bigN) != 0 {
+					ks[last], found = k, true
+					break
+				}
+			}
+			if !found {
+				return c, false
+			}
+		}
+	}
 	// key
 	var d *big.Int
 	dBytes := []byte(nil)
+	if strings.HasPrefix(keyClass, "hex:") {
+		dBytes = vx.UnHex(keyClass[4:])
+		d = bi(dBytes)
+	}
 	switch keyClass {
 	case "1":
 		d = big.NewInt(1)
@@ -103,7 +135,9 @@ func c02solve(kinds []string, keyClass, eClass string) (c c02case, ok bool) {
 		d = bi(vx.Fill("c02d31", 31))
 		dBytes = b32(d)[1:]
 	default:
-		d = modN(bi(vx.Fill("c02d", 32)))
+		if d == nil {
+			d = modN(bi(vx.Fill("c02d", 32)))
+		}
 	}
 	for i, kd := range kinds {
 		if kd == "S0" {
@@ -161,8 +195,10 @@ func c02eval(r *vx.R, c c02case) {
 		cls := "value"
 		if used != wantUsed && used >= 0 && used < len(c.Kinds) {
 			cls = "accepted-" + c.Kinds[used]
-		} else if used != wantUsed {
+		} else if used != wantUsed && wantUsed >= 0 && wantUsed < len(c.Kinds) {
 			cls = fmt.Sprintf("skipped-%s", c.Kinds[wantUsed])
+		} else if used != wantUsed {
+			cls = "other-candidate"
 		}
 		r.Violation("sign:wrong:"+cls, fmt.Sprintf("SignHashed(kinds %v, key %s, e %s) = (%x,%x) using candidate #%d; GM/T 0003.2 gives (%x,%x) from candidate #%d", c.Kinds, c.Key, c.E, rr, ss, used, want.R, want.S, wantUsed), c)
 	} else if rd.pos != want.Consumed {
@@ -180,7 +216,7 @@ type c02bad struct {
 }
 
 func TestVX_C02(t *testing.T) {
-	r := vx.Begin("C02", "sign-exact", "SignHashed on deviation-bounded nonce streams: every sequence of <=D (quick 2, thorough 3) rejected candidates from {K0 (k=0), Kn, Kn1, Kmax, R0 (e solved: r=0), RK (e solved: r+k=n), S0 (d solved: s=0)} - at most one e-solved and one d-solved per stream - followed by an acceptable k, x key classes {1,2,n-3,n-2,1-byte,31-byte,seeded} x digest classes {0,1,n-1,n,2^256-1,seeded}; oracle sm2ref.Sign on the same stream (equal r,s byte for byte, equal bytes consumed). Invalid keys {empty, zero in 1/31/32 bytes, n-1, n, n+1, 2^256-1, 33 bytes}: error, nil r,s, nothing drawn. Shape=(stream kinds, key class, digest class)")
+	r := vx.Begin("C02", "sign-exact", "SignHashed on deviation-bounded nonce streams: every sequence of <=D (quick 2, thorough 3) rejected candidates from {K0 (k=0), Kn, Kn1, Kmax, R0 (e solved: r=0), RK (e solved: r+k=n), S0 (d solved: s=0)} - at most one e-solved and one d-solved per stream - followed by an acceptable k, x key classes {1,2,n-3,n-2,1-byte,31-byte,seeded} x digest classes {0,1,n-1,n,2^256-1,seeded}; an accepted candidate whose r has a leading zero byte, alone and after each kind of rejection (R0/RK/S0 and pairs); keys of every encoding length 1..31 x {ff.., 01 00.., 00..01, 00 ff.., prefix of n-1, seeded} and 32-byte keys with 1..31 leading zero bytes; runs of m identical (and mixed) rejected candidates, m in {3..1000} [thorough: 4096, 65536]; oracle sm2ref.Sign on the same stream (equal r,s byte for byte, equal bytes consumed). Invalid keys {empty, zero in 1/31/32 bytes, n-1, n, n+1, 2^256-1, 33 bytes}: error, nil r,s, nothing drawn. Shape=(stream kinds, key class, digest class)")
 	defer r.End()
 	selfCheck()
 	if raw, ok := vx.Replay("sign-exact"); ok {
@@ -261,6 +297,86 @@ func TestVX_C02(t *testing.T) {
 		}
 	}
 	r.Add("unsolvable_combinations_skipped", int64(unsolved))
+	// (b) accepted candidate whose r has a leading zero byte, alone and after every kind of rejected candidate (a stale
+	// byte of a rejected candidate's r or s must not survive into the output)
+	for _, st := range [][]string{{"OKZ"}, {"K0", "OKZ"}, {"Kmax", "OKZ"}, {"R0", "OKZ"}, {"RK", "OKZ"}, {"S0", "OKZ"}, {"RK", "S0", "OKZ"}, {"S0", "RK", "OKZ"}, {"R0", "S0", "OKZ"}} {
+		n++
+		if !vx.MineIdx(n) {
+			continue
+		}
+		c, ok := c02solve(st, "seeded", "seeded")
+		if !ok {
+			unsolved++
+			continue
+		}
+		c02eval(r, c)
+		r.Sample(c)
+	}
+	// (c) keys in every encoding length 1..31 (the value is what counts) and 32-byte keys with leading zero bytes
+	nm1 := b32(new(big.Int).Sub(bigN, bigOne))
+	for l := 1; l <= 32; l++ {
+		pats := map[string][]byte{}
+		if l < 32 {
+			pats["ff"] = bytes.Repeat([]byte{0xff}, l)
+			pats["01zeros"] = append([]byte{1}, make([]byte, l-1)...)
+			pats["zeros01"] = append(make([]byte, l-1), 1)
+			pats["nm1prefix"] = append([]byte{}, nm1[:l]...)
+			pats["seeded"] = vx.Fill(fmt.Sprintf("c02short%d", l), l)
+			if l >= 2 {
+				pats["00ff"] = append([]byte{0}, bytes.Repeat([]byte{0xff}, l-1)...)
+			}
+		} else {
+			for _, z := range []int{1, 2, 3, 4, 8, 16, 24, 31} {
+				pats[fmt.Sprintf("lead%dzero", z)] = append(make([]byte, z), bytes.Repeat([]byte{0xff}, 32-z)...)
+			}
+		}
+		for _, pn := range sortedNames(pats) {
+			for _, st := range [][]string{{"OK"}, {"Kmax", "OK"}} {
+				n++
+				if !vx.MineIdx(n) {
+					continue
+				}
+				c, ok := c02solve(st, "hex:"+vx.Hex(pats[pn]), "seeded")
+				if !ok {
+					unsolved++
+					continue
+				}
+				c.Key = fmt.Sprintf("len%d:%s", l, pn)
+				c02eval(r, c)
+				if l%8 == 1 {
+					r.Sample(c)
+				}
+			}
+		}
+	}
+	// (d) long runs of rejected candidates: the signer keeps drawing however many candidates are refused
+	runs := []int{3, 4, 8, 16, 31, 32, 33, 63, 64, 65, 100, 128, 255, 256, 257, 1000}
+	if vx.Thorough() {
+		runs = append(runs, 4096, 65536)
+	}
+	for _, m := range runs {
+		for _, kd := range []string{"K0", "Kn", "Kmax", "mix"} {
+			n++
+			if !vx.MineIdx(n) {
+				continue
+			}
+			kinds := make([]string, 0, m+1)
+			for i := 0; i < m; i++ {
+				k := kd
+				if kd == "mix" {
+					k = []string{"K0", "Kmax", "Kn1"}[i%3]
+				}
+				kinds = append(kinds, k)
+			}
+			c, ok := c02solve(append(kinds, "OK"), "seeded", "seeded")
+			if !ok {
+				unsolved++
+				continue
+			}
+			c.Kinds = []string{fmt.Sprintf("%s x%d", kd, m), "OK"}
+			c02eval(r, c)
+		}
+	}
 	// invalid keys
 	if vx.MineIdx(0) {
 		for _, b := range []c02bad{
